@@ -457,6 +457,37 @@ class CondTracker(object):
                 return facts
         return self.on_step_plain(n, facts)
 
+    def split_on_assigned_comparison(self, n, facts):
+        """`flag = (p != NULL)` (assignment or initialised declaration of a comparison of
+        an lvalue with a constant): the path splits into the outcome where the comparison
+        holds and the one where it does not, each knowing both the compared lvalue and the
+        flag.  Returns a list of fact sets (infeasible outcomes dropped) or None when n is
+        not of that form."""
+        fn = self.fn
+        name = src = None
+        if n['k'] == 'decl' and n.get('c'):
+            name, src = n.get('name'), fn.kid(n, 0)
+        elif n['k'] == 'bin' and n.get('op') == '=':
+            l = fn.kid(n, 0)
+            if l is not None and l['k'] == 'ref' and l.get('dk') == 'local':
+                name, src = l['name'], fn.kid(n, 1)
+        while src is not None and src['k'] in ('cast', 'paren'):
+            src = fn.kid(src, 0)
+        if not name or src is None or not (src['k'] == 'bin' and src.get('op') in ('==', '!=')):
+            return None
+        it, iff = self.implied(src, True), self.implied(src, False)
+        if it is None or iff is None or it[1] == name:
+            return None
+        out = []
+        base = self.on_step_plain(n, facts)
+        for imp, val in ((it, 1), (iff, 0)):
+            if not self.consistent(base, imp):
+                continue
+            keep = frozenset(x for x in base if not (isinstance(x, tuple) and len(x) == 3 and
+                                                     x[0] in ('eq', 'ne') and x[1] == name))
+            out.append(keep | {imp, ('eq', name, val)})
+        return out
+
     def on_step_plain(self, n, facts):
         fn = self.fn
         tgt = None
